@@ -30,9 +30,10 @@ SIGNUM = {"SIGINT": 2, "SIGTERM": 15, "SIGKILL": 9, "SIGHUP": 1, "SIGQUIT": 3}
 # ------------------------------------------------------------------------------------------
 
 def coq_step2(s):
-    return ("{| deps := %s; cof := %s; cos := %s; rlimit := %d; pre := %s; sfail := %s; repeat := %s |}"
+    return ("{| deps := %s; cof := %s; cos := %s; rlimit := %d; pre := %s; sfail := %s; repeat := %s; cfails := %d |}"
             % (clist([str(d) for d in s["deps"]]), cbool(s["cof"]), cbool(s["cos"]),
-               s["rlimit"] if s["retry"] else 0, cbool(s["pre"]), cbool(s["sfail"]), cbool(s.get("repeat", False))))
+               s["rlimit"] if s["retry"] else 0, cbool(s["pre"]), cbool(s["sfail"]), cbool(s.get("repeat", False)),
+               sched_lib.coq_cfails(s)))
 
 
 def coq_event2(e):
@@ -74,16 +75,22 @@ def handlers_on(c):
     return [bool(hs[h]["on"]) if h < len(hs) else False for h in range(4)]
 
 
+def handlers_sfail(c):
+    """the set-up of the handler's node fails (its stdout goes into a directory that does not exist)"""
+    hs = c.get("handlers") or []
+    return [bool(hs[h].get("sfail")) if h < len(hs) else False for h in range(4)]
+
+
 def coq_case2(c):
     evs = [x for x in (coq_event2(e) for e in c["events"]) if x is not None]
     hf = c.get("hfinal") or [-1, -1, -1, -1]
-    return ("{| d_steps := %s; d_k := %d; d_dry := %s; d_done := %s; d_sigs := %d; d_tmo := %s; d_hon := %s; "
+    return ("{| d_steps := %s; d_k := %d; d_dry := %s; d_done := %s; d_sigs := %d; d_tmo := %s; d_hon := %s; d_hsf := %s; "
             "d_ivl := %s; d_rivl := %s; d_trace := %s; d_final := %s; d_hfinal := %s; d_err := %s; d_status := %d; "
             "d_status_h := %d; d_status_ret := %d |}"
             % (clist([coq_step2(s) for s in c["steps"]]), c["maxactive"], cbool(c["dry"]), cbool(c["done"]),
                sum(1 for e in c["events"] if e["e"] == "sc"),
                ("(Some %s)" % cz(deadline(c))) if c.get("timeout") else "None",
-               clist([cbool(b) for b in handlers_on(c)]),
+               clist([cbool(b) for b in handlers_on(c)]), clist([cbool(b) for b in handlers_sfail(c)]),
                clist([cz(s["ivl"] if s["retry"] else 0) for s in c["steps"]]),
                clist([cz(s.get("rivl", 0)) for s in c["steps"]]),
                clist(evs), clist(["(%d, %d)" % (f["st"], f["rc"]) for f in c["final"]]),
@@ -163,10 +170,14 @@ def py_mon_C04(c):
     started = [e["i"] if e["e"] == "hs" else -1 - e["i"] for e in evs if e["e"] == "hs" or (e["e"] == "x" and e["i"] < 0)]
     timed_out = bool(c.get("timeout")) and any(e["t"] >= deadline(c) for e in evs)
     # the outcome the handlers were chosen for is not directly visible: the outcomes that explain the handlers that ran
-    cands = [s for s in (4, 2, 3) if [h for h in handler_for(s) + [0] if on[h]] == started]
+    # a handler whose node cannot be set up is marked failed and not run; the handlers after it still run (onExit last)
+    sf = handlers_sfail(c) if not c["dry"] else [False] * 4
+    cands = [s for s in (4, 2, 3) if [h for h in handler_for(s) + [0] if on[h] and not sf[h]] == started]
     if not cands:
-        return ("handlers started %s: no outcome explains this list (configured: %s)"
-                % ([HTEXT[h] for h in started], [HTEXT[h] for h in range(4) if on[h]]), {"kind": "handlers"})
+        return ("handlers started %s: no outcome explains this list (configured: %s%s)"
+                % ([HTEXT[h] for h in started], [HTEXT[h] for h in range(4) if on[h]],
+                   ("; set-up fails for: %s" % [HTEXT[h] for h in range(4) if on[h] and sf[h]]) if any(sf) else ""),
+                {"kind": "handlers"})
     seen_h = False
     for e in evs:
         if e["e"] in ("hs", "he") or (e["e"] == "x" and e["i"] < 0):
@@ -180,12 +191,21 @@ def py_mon_C04(c):
     hf = c.get("hfinal")
     if hf:
         ends = {e["i"]: e.get("ok", False) for e in evs if e["e"] == "he"}
-        for h in range(4):
-            if not on[h]:
-                continue
-            wantst = (4 if ends[h] else 2) if h in ends else 0
-            if hf[h] != wantst:
-                return ("%s ended in state '%s', its run says '%s'" % (HTEXT[h], ST.get(hf[h], "?"), ST.get(wantst, "?")), {"kind": "handlers"})
+        why = None
+        for s0 in cands:
+            why = None
+            due = handler_for(s0) + [0]
+            for h in range(4):
+                if not on[h]:
+                    continue
+                wantst = (4 if ends[h] else 2) if h in ends else (2 if (sf[h] and h in due) else 0)
+                if hf[h] != wantst:
+                    why = ("%s ended in state '%s', its run says '%s'" % (HTEXT[h], ST.get(hf[h], "?"), ST.get(wantst, "?")), {"kind": "handlers"})
+                    break
+            if why is None:
+                break
+        if why is not None:
+            return why
     fin = [f["st"] for f in c["final"]]
     all_ok = all(x in (4, 5) for x in fin)
     if not c["dry"]:
@@ -397,6 +417,8 @@ def distribution2(cases):
             d["stop_at_event"][a] = d["stop_at_event"].get(a, 0) + 1
         if c.get("timeout"):
             d["with_timeout"] += 1
+        if any(handlers_sfail(c)):
+            d["handler_setup_failure_runs"] = d.get("handler_setup_failure_runs", 0) + 1
         for i, f in enumerate(c["final"]):
             d["final_status"][ST.get(f["st"], "?")] = d["final_status"].get(ST.get(f["st"], "?"), 0) + 1
             # a stop during a retry interval: the retrying worker's reset undoes the canceled label (Props/C05.v (4))
